@@ -3,7 +3,7 @@
    All theorems are about the `Rat` instance of the executable model `DSModel/VarOpt/{Heap,Sketch,Union}.lean`
    (the `Float` instance of the same definitions is what the correspondence check compares with the real headers).
    They quantify over every configuration, every stream of positive weights, and every draw sequence `ds`
-   (the random-choice oracle), with no bound on lengths.  `feed false items s0 ds` = `update` applied to the items in
+   (the random-choice oracle), with no bound on lengths.  `feed T false items s0 ds` = `update` applied to the items in
    order, starting from the empty sketch `s0`; `none` would be a C++ exception.
 
    NOT formalised (said in the CLAIM note as well): "subset-sum estimates are unbiased over the sampling randomness"
@@ -26,11 +26,11 @@ def exDraws : Draws Rat := ⟨[1/2, 1/4], [1, 5]⟩
     an input item.  `update` never throws. -/
 theorem vo_size (T : Tunables) (k rf : Nat) (s0 : Sk Rat) (h0 : Sk.new T k rf false = some s0)
     (items : List (Int × Rat)) (hpos : ∀ p ∈ items, 0 < p.2) (ds : Draws Rat) :
-    ∃ s ds', feed false items s0 ds = some (s, ds') ∧ s.n = items.length ∧ s.k = k ∧
+    ∃ s ds', feed T false items s0 ds = some (s, ds') ∧ s.n = items.length ∧ s.k = k ∧
       s.H.length + s.R.length = min items.length k ∧ s.numSamples = min items.length k ∧
       (∀ e ∈ s.H, (e.item, e.wt) ∈ items) ∧ (∀ x ∈ s.R, ∃ q ∈ items, q.1 = x) := by
   obtain ⟨hinv0, hk0, hg0, _⟩ := new_inv T k rf false s0 h0
-  obtain ⟨s, ds', L, hf, hinv, hk, hg, _, _⟩ := feed_spec false items s0 [] [] ds hinv0 hpos (by simp)
+  obtain ⟨s, ds', L, hf, hinv, hk, hg, _, _⟩ := feed_spec T false items s0 [] [] ds hinv0 hpos (by simp)
   have hlen : (entriesOf s0.gadget false items ++ []).length = items.length := by simp [length_entriesOf]
   have hmem : ∀ e ∈ entriesOf s0.gadget false items ++ [], (e.item, e.wt) ∈ items := by
     intro e he
@@ -62,12 +62,12 @@ example : ∃ s0, Sk.new (α := Rat) exT 2 0 false = some s0 ∧ (∀ p ∈ exIt
     (for whatever bound functions `B`). -/
 theorem vo_weight_conserved (T : Tunables) (k rf : Nat) (s0 : Sk Rat) (h0 : Sk.new T k rf false = some s0)
     (items : List (Int × Rat)) (hpos : ∀ p ∈ items, 0 < p.2) (ds : Draws Rat) :
-    ∃ s ds', feed false items s0 ds = some (s, ds') ∧
+    ∃ s ds', feed T false items s0 ds = some (s, ds') ∧
       sumW s.H + (if s.R = [] then 0 else s.totalWtR) = totalW items ∧
       sumR (s.samples.map (·.2)) = totalW items ∧
       (∀ B : FracBounds Rat, ∃ r, estimateSubsetSum B s (fun _ => true) = some r ∧ r.estimate = totalW items) := by
   obtain ⟨hinv0, _, _, _⟩ := new_inv T k rf false s0 h0
-  obtain ⟨s, ds', L, hf, hinv, _, _, _, _⟩ := feed_spec false items s0 [] [] ds hinv0 hpos (by simp)
+  obtain ⟨s, ds', L, hf, hinv, _, _, _, _⟩ := feed_spec T false items s0 [] [] ds hinv0 hpos (by simp)
   have htot : sumW (entriesOf s0.gadget false items ++ []) = totalW items := by
     rw [List.append_nil, sumW_entriesOf]
   refine ⟨s, ds', hf, ?_, by rw [hinv.samples_sum, htot], fun B => ?_⟩
@@ -84,15 +84,15 @@ example : totalW exItems = 37 := by norm_num [totalW, exItems, sumR]
     is in H with its exact weight. -/
 theorem vo_heavy_exact (T : Tunables) (k rf : Nat) (s0 : Sk Rat) (h0 : Sk.new T k rf false = some s0)
     (items more : List (Int × Rat)) (hpos : ∀ p ∈ items, 0 < p.2) (hpos2 : ∀ p ∈ more, 0 < p.2) (ds : Draws Rat) :
-    ∃ s ds' s2 ds2, feed false items s0 ds = some (s, ds') ∧ feed false more s ds' = some (s2, ds2) ∧
+    ∃ s ds' s2 ds2, feed T false items s0 ds = some (s, ds') ∧ feed T false more s ds' = some (s2, ds2) ∧
       (s.R ≠ [] → s2.R ≠ [] ∧ s.totalWtR / (s.R.length : Rat) ≤ s2.totalWtR / (s2.R.length : Rat)) ∧
       (s.R ≠ [] →
         (∀ e ∈ s.H, (e.item, e.wt) ∈ items ∧ s.totalWtR / (s.R.length : Rat) ≤ e.wt) ∧
         (s.H ≠ [] → s.totalWtR / (s.R.length : Rat) ≤ wtAt s.H 0) ∧
         (∀ q ∈ items, s.totalWtR / (s.R.length : Rat) < q.2 → ∃ e ∈ s.H, e.item = q.1 ∧ e.wt = q.2)) := by
   obtain ⟨hinv0, _, _, _⟩ := new_inv T k rf false s0 h0
-  obtain ⟨s, ds', L, hf, hinv, _, hg, _, _⟩ := feed_spec false items s0 [] [] ds hinv0 hpos (by simp)
-  obtain ⟨s2, ds2, L2, hf2, _, _, _, _, htau⟩ := feed_spec false more s _ L ds' hinv hpos2 (by simp)
+  obtain ⟨s, ds', L, hf, hinv, _, hg, _, _⟩ := feed_spec T false items s0 [] [] ds hinv0 hpos (by simp)
+  obtain ⟨s2, ds2, L2, hf2, _, _, _, _, htau⟩ := feed_spec T false more s _ L ds' hinv hpos2 (by simp)
   refine ⟨s, ds', s2, ds2, hf, hf2, ?_, ?_⟩
   · intro hr
     obtain ⟨hr2, hle⟩ := htau hr
@@ -134,7 +134,7 @@ def BracketsFraction (B : FracBounds Rat) : Prop :=
 def vo_subset_bounds_full (B : FracBounds Rat) : Prop :=
   ∀ (T : Tunables) (k rf : Nat) (s0 : Sk Rat), Sk.new T k rf false = some s0 →
     ∀ (items : List (Int × Rat)), (∀ p ∈ items, 0 < p.2) → ∀ (ds : Draws Rat) (p : Int → Bool),
-      ∃ s ds' res, feed false items s0 ds = some (s, ds') ∧ estimateSubsetSum B s p = some res ∧
+      ∃ s ds' res, feed T false items s0 ds = some (s, ds') ∧ estimateSubsetSum B s p = some res ∧
         res.lowerBound ≤ res.estimate ∧ res.estimate ≤ res.upperBound
 
 /-- **vo_subset_bounds_partial.** The full statement holds for every pair of bound functions that brackets the
@@ -143,7 +143,7 @@ def vo_subset_bounds_full (B : FracBounds Rat) : Prop :=
 theorem vo_subset_bounds_partial (B : FracBounds Rat) (hB : BracketsFraction B) : vo_subset_bounds_full B := by
   intro T k rf s0 h0 items hpos ds p
   obtain ⟨hinv0, _, _, _⟩ := new_inv T k rf false s0 h0
-  obtain ⟨s, ds', L, hf, hinv, _, _, _, _⟩ := feed_spec false items s0 [] [] ds hinv0 hpos (by simp)
+  obtain ⟨s, ds', L, hf, hinv, _, _, _, _⟩ := feed_spec T false items s0 [] [] ds hinv0 hpos (by simp)
   obtain ⟨res, hres⟩ := hinv.estimate_some B p
   have hW : s.R.length ≠ 0 → 0 ≤ s.totalWtR := by
     intro hr0
@@ -261,14 +261,14 @@ example : ∃ (M : List E) (W : Rat) (c : Nat), 2 ≤ M.length ∧ c = M.length 
     "returns" is a hypothesis. -/
 theorem vo_union (T : Tunables) (maxK : Nat) (u0 : Un Rat) (hu0 : Un.new T maxK = some u0)
     (inputs : List (Sk Rat × List (Int × Rat))) (hin : ∀ p ∈ inputs, FromStream p.1 p.2) (ds : Draws Rat) :
-    ∃ u ds', unionAll u0 (inputs.map (·.1)) ds = some (u, ds') ∧
+    ∃ u ds', unionAll T u0 (inputs.map (·.1)) ds = some (u, ds') ∧
       u.n = (inputs.map (fun p => p.2.length)).sum ∧
       ∀ (ds2 : Draws Rat) (res : Sk Rat) (ds3 : Draws Rat), u.getResult T ds2 = some (res, ds3) →
         res.n = u.n ∧ skWeight res = sumR (inputs.map (fun p => totalW p.2)) ∧
         res.H.length + res.R.length ≤ res.k ∧ res.k ≤ maxK ∧ res.numSamples ≤ maxK ∧
         res.gadget = false ∧ res.numMarksInH = 0 ∧ (∀ e ∈ res.H, e.mark = false) := by
   obtain ⟨hinv0, hk0⟩ := newUnion_inv T maxK u0 hu0
-  obtain ⟨u, ds', insG, LG, hall, hu, hk⟩ := unionAll_spec inputs hin u0 [] [] 0 0 ds hinv0
+  obtain ⟨u, ds', insG, LG, hall, hu, hk, _⟩ := unionAll_spec T inputs hin u0 [] [] 0 0 ds hinv0 (newUnion_book T maxK u0 hu0)
   simp only [zero_add, Nat.zero_add] at hu
   refine ⟨u, ds', hall, hu.n_eq, ?_⟩
   intro ds2 res ds3 hres
@@ -292,7 +292,7 @@ example : ∃ u0, Un.new (α := Rat) exT 10 = some u0 ∧ (∀ p ∈ [(wA, wItem
 def vo_union_wellformed_full : Prop :=
   ∀ (T : Tunables) (maxK : Nat) (u0 : Un Rat), Un.new T maxK = some u0 →
     ∀ (inputs : List (Sk Rat × List (Int × Rat))), (∀ p ∈ inputs, FromStream p.1 p.2) →
-      ∀ (ds : Draws Rat) (u : Un Rat) (ds' : Draws Rat), unionAll u0 (inputs.map (·.1)) ds = some (u, ds') →
+      ∀ (ds : Draws Rat) (u : Un Rat) (ds' : Draws Rat), unionAll T u0 (inputs.map (·.1)) ds = some (u, ds') →
         ∀ (ds2 : Draws Rat) (res : Sk Rat) (ds3 : Draws Rat), u.getResult T ds2 = some (res, ds3) → WellFormed res
 
 /-- **The current code violates it** (open finding `union-result-sample-lighter-than-tau`; the same coercer also
@@ -308,8 +308,8 @@ theorem vo_union_wellformed_full_false : ¬ vo_union_wellformed_full := by
     rcases hp with rfl | rfl
     · exact wA_fromStream
     · exact wB_fromStream
-  have hsome0 : (unionAll wU0 [wA, wB] wDs).isSome = true := by decide +kernel
-  cases hall : unionAll wU0 [wA, wB] wDs with
+  have hsome0 : (unionAll exT wU0 [wA, wB] wDs).isSome = true := by decide +kernel
+  cases hall : unionAll exT wU0 [wA, wB] wDs with
   | none => rw [hall] at hsome0; exact absurd hsome0 (by simp)
   | some q =>
     obtain ⟨u, ds'⟩ := q
@@ -334,11 +334,11 @@ theorem vo_union_wellformed_full_false : ¬ vo_union_wellformed_full := by
     the path taken (no marked items in the gadget's H, or the general `migrate_marked_items_by_decreasing_k` path). -/
 theorem vo_union_wellformed_partial (T : Tunables) (maxK : Nat) (u0 : Un Rat) (hu0 : Un.new T maxK = some u0)
     (inputs : List (Sk Rat × List (Int × Rat))) (hin : ∀ p ∈ inputs, FromStream p.1 p.2) (ds : Draws Rat)
-    (u : Un Rat) (ds' : Draws Rat) (hall : unionAll u0 (inputs.map (·.1)) ds = some (u, ds'))
+    (u : Un Rat) (ds' : Draws Rat) (hall : unionAll T u0 (inputs.map (·.1)) ds = some (u, ds'))
     (ds2 : Draws Rat) (res : Sk Rat) (ds3 : Draws Rat) (hres : u.getResult T ds2 = some (res, ds3))
     (hpath : pseudoExact T u { u.gadget with n := u.n } = none) : WellFormed res := by
   obtain ⟨hinv0, _⟩ := newUnion_inv T maxK u0 hu0
-  obtain ⟨u', ds'', insG, LG, hall', hu, _⟩ := unionAll_spec inputs hin u0 [] [] 0 0 ds hinv0
+  obtain ⟨u', ds'', insG, LG, hall', hu, _, _⟩ := unionAll_spec T inputs hin u0 [] [] 0 0 ds hinv0 (newUnion_book T maxK u0 hu0)
   rw [hall] at hall'
   injection hall' with hall'; injection hall' with h1 h2
   subst h1
@@ -352,7 +352,7 @@ example : (pseudoExact (α := Rat) exT wU0 { wU0.gadget with n := wU0.n }).isNon
 def vo_serde_update_full : Prop :=
   ∀ (sk : Sk Rat) (items : List (Int × Rat)), FromStream sk items →
     ∀ (T : Tunables) (sk2 : Sk Rat), serdeRoundTrip T sk = some sk2 →
-      ∀ (x : Int) (w : Rat) (ds : Draws Rat), 0 < w → (update sk2 x w false ds).isSome = true
+      ∀ (x : Int) (w : Rat) (ds : Draws Rat), 0 < w → (update T sk2 x w false ds).isSome = true
 
 /-- **The current code violates it** (open finding `update-throws-after-deserialize`): `deserialize` constructs an
     estimation-mode sketch with `m_ = 1`, and every update path then fails an entry check.  Witness: the k = 2 sketch
@@ -376,10 +376,10 @@ theorem vo_serde_update_partial (sk : Sk Rat) (items : List (Int × Rat)) (hfs :
     (hk : sk.k ≤ T.maxK) (hne : sk.isEmpty = false) :
     ∃ sk2, serdeRoundTrip T sk = some sk2 ∧ sk2.n = sk.n ∧ sk2.k = sk.k ∧ sk2.numSamples = sk.numSamples ∧
       sk2.samples = sk.samples ∧ (∀ B p, estimateSubsetSum B sk2 p = estimateSubsetSum B sk p) ∧
-      (sk.R = [] → ∀ (x : Int) (w : Rat) (ds : Draws Rat), 0 < w → (update sk2 x w false ds).isSome = true) := by
+      (sk.R = [] → ∀ (x : Int) (w : Rat) (ds : Draws Rat), 0 < w → (update T sk2 x w false ds).isSome = true) := by
   obtain ⟨T0, k, rf, s0, ds, ds', h0, hpos, hf⟩ := hfs
   obtain ⟨hinv0, _, hg0, _⟩ := new_inv T0 k rf false s0 h0
-  obtain ⟨s, ds2, L, hf', hinv, _, hg, _, _⟩ := feed_spec false items s0 [] [] ds hinv0 hpos (by simp)
+  obtain ⟨s, ds2, L, hf', hinv, _, hg, _, _⟩ := feed_spec T0 false items s0 [] [] ds hinv0 hpos (by simp)
   rw [hf] at hf'
   injection hf' with hf'; injection hf' with h1 h2
   subst h1
@@ -396,19 +396,11 @@ theorem vo_serde_update_partial (sk : Sk Rat) (items : List (Int × Rat)) (hfs :
     · have : sk.R.length > 0 := length_pos_of_ne_nil hR
       simp [estimateSubsetSum, this]
   · intro hR x w ds3 hw
-    obtain ⟨hL, hhk, hW0⟩ := hinv.warm hR
-    have hrl : sk.R.length = 0 := by rw [hR]; rfl
-    have hi : Inv { sk with M := [], totalWtR := if sk.R.length > 0 then sk.totalWtR else 0,
-                            numMarksInH := 0, mStale := decide (sk.R.length > 0), alloc := a }
-        (entriesOf s0.gadget false items ++ []) L := by
-      refine { kpos := hinv.kpos, mnil := rfl, fresh := by simp [hrl], n_eq := hinv.n_eq, perm := hinv.perm,
-               pos := hinv.pos, marks := ?_, warm := fun _ => ⟨hL, hhk, by simp [hrl]⟩, est := fun h => absurd hR h }
-      constructor
-      · show 0 = countMarks sk.H
-        unfold countMarks
-        rw [List.filter_eq_nil_iff.mpr (fun e he => by simp [hinv.marks.2 hgad e he])]; rfl
-      · exact hinv.marks.2
-    obtain ⟨s', ds4, L', hu, _⟩ := update_spec _ _ L hi x w false ds3 hw (by simp)
+    obtain ⟨sk2, hs2, hi, _⟩ := serde_inv T sk _ L hinv hgad hk hne (Or.inl hR)
+    rw [hform] at hs2
+    injection hs2 with hs2
+    rw [hs2]
+    obtain ⟨s', ds4, L', hu, _⟩ := update_spec T sk2 _ L hi x w false ds3 hw (by simp)
     rw [hu]; rfl
 
 example : FromStream wA wItemsA ∧ wA.k ≤ exT.maxK ∧ wA.isEmpty = false := ⟨wA_fromStream, by decide +kernel, by decide +kernel⟩
